@@ -102,6 +102,7 @@ type scrape struct {
 	scopes       int
 	targetLabels []string
 	native       map[string]*nativeHist
+	family       map[string]string // series id -> name of the metric family it is exposed in
 }
 
 type safeCollector struct {
@@ -389,7 +390,7 @@ func (engine) Body(r *simdrv.Run) {
 		})
 	}
 	doScrape := func(task string) {
-		sc := &scrape{task: task, inv: sim.Stamp(), vals: map[string]float64{}, counts: map[string]uint64{}, kinds: map[string]string{}, bucks: map[string]map[float64]uint64{}, native: map[string]*nativeHist{}}
+		sc := &scrape{task: task, inv: sim.Stamp(), vals: map[string]float64{}, counts: map[string]uint64{}, kinds: map[string]string{}, bucks: map[string]map[float64]uint64{}, native: map[string]*nativeHist{}, family: map[string]string{}}
 		w.scrapes = append(w.scrapes, sc)
 		mfs, err := reg.Gather()
 		simrt.Woke(simdrv.PtOp)
@@ -422,6 +423,7 @@ func (engine) Body(r *simdrv.Run) {
 				if id == "" {
 					continue
 				}
+				sc.family[id] = mf.GetName()
 				if _, dup := sc.kinds[id]; dup {
 					sc.badH = append(sc.badH, fmt.Sprintf("instrument %s appears in more than one series (family %s)", id, mf.GetName()))
 				}
@@ -625,6 +627,11 @@ func (engine) Body(r *simdrv.Run) {
 				r.Violate(prop, "phantom-series", "phantom-series", "scrape %d..%d exposes %s %q before any measurement was made", sc.inv, sc.ret, in.kind, in.name)
 				continue
 			}
+			// "unit and total suffixes are neither duplicated when the instrument name already carries them":
+			// the family name repeats a word back to back only where the instrument's own name does
+			if fam := sc.family[id]; dupWords(fam) > dupWords(in.name) {
+				r.Violate(prop, "suffix-duplicated", "suffix-duplicated", "%s %q (unit %q) is exposed as family %q: a suffix word appears twice in a row", in.kind, in.name, in.unit, fam)
+			}
 			wantKind := map[string]string{"counter_i": "counter", "counter_f": "counter", "updown_i": "gauge", "gauge_i": "gauge", "hist_i": "histogram", "exphist_f": "histogram"}[in.kind]
 			if sc.kinds[id] != wantKind {
 				r.Violate(prop, "wrong-type", "wrong-type", "%s %q is exposed as a %s", in.kind, in.name, sc.kinds[id])
@@ -748,6 +755,20 @@ func (engine) Body(r *simdrv.Run) {
 		sort.Strings(w.handled)
 		r.Violate(prop, "exporter-error", "exporter-error", "the exporter reported errors for valid instruments: %v", w.handled)
 	}
+}
+
+// dupWords counts the words of a metric name (split at '_' and '.') that repeat the word before them.
+//
+//go:norace
+func dupWords(name string) int {
+	ws := strings.FieldsFunc(name, func(c rune) bool { return c == '_' || c == '.' })
+	n := 0
+	for i := 1; i < len(ws); i++ {
+		if ws[i] == ws[i-1] {
+			n++
+		}
+	}
+	return n
 }
 
 //go:norace
